@@ -100,4 +100,31 @@ WrittenOnce == Done => \A tx \in 0..(NX - 1), ty \in 0..(NY - 1) :
 InBuffer == Done => \A tx \in 0..(NX - 1), ty \in 0..(NY - 1) : RootTile(tx, ty)[2]
 EmitBitmap == (Done /\ policy = "exact" /\ inside \subseteq (0..(W - 1)) \X (0..(H - 1))) =>
    PrintT(<<"GEN", ToJson([w |-> W, h |-> H, rows |-> [y \in 1..H |-> [x \in 1..W |-> IF <<x - 1, y - 1>> \in inside THEN 1 ELSE 0]]])>>)
+
+(***************************************************************************)
+(* Step-wise formulation: one tile decision per step (the grain of the     *)
+(* pix_tile hook events, see Trace_Tiles2.tla), for one root tile.         *)
+(* st = [st (<<buffer, in bounds>>), agenda]; the agenda lists the tiles   *)
+(* still to be looked at, head first, as <<level, corner>>.  An answer is  *)
+(* "neg" / "pos" (the tile is filled; fill mode only) or "amb" (recurse    *)
+(* into the sub-tiles, j outer and i inner, or evaluate the pixels).       *)
+(* StepsAgree: driving the steps with the oracle gives the buffer of the   *)
+(* recursive formulation (checked by TLC for every inside set).            *)
+(***************************************************************************)
+StepInit(tx, ty) == [st |-> <<EmptyBuf, TRUE>>, agenda |-> << <<1, <<tx * T0, ty * T0>>>> >>]
+SubTiles(di, c) == LET s2 == TS[di + 1]  n == TS[di] \div s2 IN
+                   [q \in 1..(n * n) |-> <<di + 1, <<c[1] + ((q - 1) % n) * s2, c[2] + ((q - 1) \div n) * s2>>>>]
+StepTile(s, ans) ==
+  LET di == Head(s.agenda)[1]
+      c == Head(s.agenda)[2]
+      rest == Tail(s.agenda)
+  IN CASE ans = "neg" -> [s EXCEPT !.st = FillRows(s.st, c, TS[di], "in", 0), !.agenda = rest]
+       [] ans = "pos" -> [s EXCEPT !.st = FillRows(s.st, c, TS[di], "out", 0), !.agenda = rest]
+       [] ans = "amb" -> (IF di < Len(TS) THEN [s EXCEPT !.agenda = SubTiles(di, c) \o rest]
+                          ELSE [s EXCEPT !.st = PixelRows(s.st, c, TS[di], 0), !.agenda = rest])
+ModelAnswer(s) == LET a == Oracle(Head(s.agenda)[1], Head(s.agenda)[2], TS[Head(s.agenda)[1]]) IN
+                  IF FillMode THEN a ELSE "amb"
+RECURSIVE RunSteps(_)
+RunSteps(s) == IF s.agenda = <<>> THEN s ELSE RunSteps(StepTile(s, ModelAnswer(s)))
+StepsAgree == Done => \A tx \in 0..(NX - 1), ty \in 0..(NY - 1) : RunSteps(StepInit(tx, ty)).st = RootTile(tx, ty)
 ==============================================================================
